@@ -12,19 +12,21 @@ import scipy.sparse as sps
 from pmc import modspecs as ms
 
 PROPERTY = 'C03'
-RULE = ("stateless exploration of call histories on 9 networks (N1 filter+stiffness+sparse LinSolve, N2 block rhs, N3 "
+RULE = ("stateless exploration of call histories on 13 networks (N1 filter+stiffness+sparse LinSolve, N2 block rhs, N3 "
         "CG(SOR) with initial-guess memory, N4 sparse EigenSolve, N5 OverhangFilter+KS, N6 SystemOfEquations, N7 "
         "StaticCondensation, N8 complex dynamic stiffness + LinSolve + ComplexNorm, N9 bare dense LinSolve whose matrix "
-        "table holds different matrix classes, N10 the same with definite -> indefinite -> definite symmetric matrices, N11 CG with geometric multigrid); every protocol-respecting sequence over {I0,I1,I2,R,S0,S1,B,Z} up to the "
+        "table holds different matrix classes, N10 the same with definite -> indefinite -> definite symmetric matrices, N11 CG with geometric multigrid, N12 sparse eigenvectors seeded one mode at a time, N13 block right-hand side whose seeds mix seen and new columns); every protocol-respecting sequence over {I0,I1,I2,R,S0,S1,B,Z} up to the "
         "depth bound, each followed by clean cycles for all (k,j), j in {output 0, output 1, both outputs} (the first fresh after the sequence, rotating); on every "
-        "intermediate state: after Z no sensitivity is left, B without a seed changes nothing, R,R equals R. "
+        "intermediate state: after Z no sensitivity is left, B without a seed changes nothing, R,R equals R. Level 'reseeded-passes': "
+        "every clean cycle followed by every cycle (k,j,j2[,j3]) = clean cycle (k,j) then reset+seed j2+sensitivity WITHOUT a new response, "
+        "each pass compared with the fresh network's (k,j2). "
         "Non-trivial = the sequence contains at least one R; distinct by (network, sequence, first clean cycle)")
 ASSUMPTIONS = ["documented memories (Scaling first value, damped AggScaling, writer counters) are not part of the networks",
                "N3 and N11 (iterative solvers) are compared with SOLVER tolerance 1e-6 relative, all others ALG 1e-9",
                "pymoto.core_objects.get_init_str (diagnostic only) replaced by a constant"]
 
 OPS = ['I0', 'I1', 'I2', 'R', 'S0', 'S1', 'B', 'Z']
-NETS = ['N1', 'N2', 'N3', 'N4', 'N5', 'N6', 'N7', 'N8', 'N9', 'N10', 'N11']
+NETS = ['N1', 'N2', 'N3', 'N4', 'N5', 'N6', 'N7', 'N8', 'N9', 'N10', 'N11', 'N12', 'N13']
 
 
 def _xs(nel, t):
@@ -63,6 +65,33 @@ def build(name, t=0):
         l0 = net.append(pym.EinSum([lam], expression='i->'))
         q0 = net.append(pym.EinSum([Q, Q], expression='ij,ij->'))
         outs = [l0, q0]
+    elif name == 'N12':
+        # sparse eigenvectors seeded directly, one mode at a time (exact-zero seed columns for the other modes)
+        K = net.append(pym.AssembleStiffness(x, domain=dom, bc=bc))
+        M = net.append(pym.AssembleMass(x, domain=dom, bc=bc, ndof=2, bcdiagval=1.0))
+        lam, Q = net.append(pym.EigenSolve([K, M], nmodes=3, hermitian=True))
+        outs = [Q, Q]
+        nd = dom.nnodes * 2
+        g0, g1 = np.zeros((nd, 3)), np.zeros((nd, 3))
+        g0[:, 0] = np.cos(1.0 + np.arange(nd))
+        g1[:, 1] = np.sin(0.5 + 0.7 * np.arange(nd))
+        seeds = [g0, g1]
+    elif name == 'N13':
+        # block right-hand side; the seeds of the solution mix a column the solver has already seen (a load column: the
+        # matrix is symmetric, so its adjoint solution is known) with a column that is new
+        xf = net.append(pym.DensityFilter(x, domain=dom, radius=1.5))
+        K = net.append(pym.AssembleStiffness(xf, domain=dom, bc=bc))
+        nd = dom.nnodes * 2
+        # generic load values (not unit loads): reconstruction residuals are round-off, not exact zeros
+        F = np.stack([np.cos(0.9 + 1.3 * np.arange(nd)), 0.5 * np.sin(0.2 + 0.6 * np.arange(nd))], axis=1)
+        F[bc] = 0
+        rhs = pym.Signal('f', F.copy())
+        u = net.append(pym.LinSolve([K, rhs]))
+        outs = [u, u]
+        new1, new2 = np.cos(0.3 + np.arange(nd)), np.sin(1.0 + 0.9 * np.arange(nd))
+        new1[bc] = 0
+        new2[bc] = 0
+        seeds = [np.stack([F[:, 0], new1], axis=1), np.stack([new2, F[:, 1]], axis=1)]
     elif name == 'N5':
         xo = net.append(pym.OverhangFilter(x, domain=dom, direction=[0, 1]))
         a = net.append(pym.KSFunction(xo, rho=3.0))
@@ -101,7 +130,9 @@ def build(name, t=0):
         Z = net.append(Dyn([K, M]))
         rhs = pym.Signal('f', f.astype(complex))
         u = net.append(pym.LinSolve([Z, rhs]))
-        A = net.append(pym.ComplexNorm(u))
+        # the norm is not differentiable where u is exactly 0 (the clamped dofs): take it of the free dofs only
+        free8 = np.setdiff1d(np.arange(dom.nnodes * 2), bc)
+        A = net.append(pym.ComplexNorm(u[free8]))
         c = net.append(pym.EinSum([A], expression='i->'))
         ur = net.append(pym.RealPart(u))
         d = net.append(pym.EinSum([ur, ur], expression='i,i->'))
@@ -304,7 +335,8 @@ def run_history(name, t, seq, cycles):
                     if g is not None and np.any(g != 0):
                         return nops, ('sensitivity_left_after_reset', {'net': name}, {'seq': seq, 'step': i,
                                                                                       'signal': s.tag})
-        for c, (k, j) in enumerate(cycles):
+        for c, cyc in enumerate(cycles):
+            k, j, more = cyc[0], cyc[1], list(cyc[2:])
             ref = reference(name, t, k, j)
             if ref is None:
                 continue
@@ -323,6 +355,26 @@ def run_history(name, t, seq, cycles):
                 if not ok:
                     return nops, ('sensitivity_differs_from_fresh', {'net': name, 'input_class_changed': changed},
                                   {'seq': seq, 'cycles': cycles[:c + 1], 'source': idx, 'rel': d})
+            # further sensitivity passes for other seeds WITHOUT a new response (one response, several seeds: what
+            # finite_difference and the optimizers do)
+            for q, j2 in enumerate(more):
+                ref2 = reference(name, t, k, j2)
+                if ref2 is None:
+                    break
+                nops += 3
+                net.reset()
+                seed(w, j2)
+                net.sensitivity()
+                for idx, (a, b) in enumerate(zip(snap_states(w), rst)):
+                    ok, d = close(a, b, tol)
+                    if not ok:
+                        return nops, ('state_changed_by_sensitivity_pass', {'net': name},
+                                      {'seq': seq, 'cycles': cycles[:c + 1], 'signal': w['sigs'][idx].tag, 'rel': d})
+                for idx, (a, b) in enumerate(zip(src_sens(w), ref2[1])):
+                    ok, d = close(a, b, tol * (1e3 if name in ('N3', 'N11') else 1))
+                    if not ok:
+                        return nops, ('reseeded_pass_differs_from_fresh', {'net': name, 'input_class_changed': changed},
+                                      {'seq': seq, 'cycles': cycles[:c + 1], 'pass': q + 2, 'source': idx, 'rel': d})
     except Exception as e:  # noqa
         if not _in_repo(e):
             raise
@@ -397,8 +449,21 @@ def generate(tier, seed):
                     hs.append({'seq': s, 'cycles': [list(c) for c in cyc]})
             for ch in chunks(hs, 40):
                 yield {'net': name, 'table': t, 'histories': ch}
+    def reseed_level(tier_):
+        # every clean cycle (k, j) followed by every cycle with one or two further seeded passes on the same response
+        second = [(k, j, j2) for k in range(3) for j in range(3) for j2 in range(3)]
+        if tier_ != 'quick':
+            second += [(k, j, j2, j3) for k in range(3) for j in range(3) for j2 in range(3) for j3 in range(3)]
+        for name in NETS:
+            hs = [{'seq': [], 'cycles': [list(c2)]} for c2 in second]
+            hs += [{'seq': [], 'cycles': [list(c1), list(c2)]} for c1 in ALL_CYCLES for c2 in second]
+            for ch in chunks(hs, 30):
+                yield {'net': name, 'table': t, 'histories': ch}
+
     yield {'__level__': 'depth<=2/all-first-cycles'}
     yield from level(0, 2, True)
+    yield {'__level__': 'reseeded-passes'}
+    yield from reseed_level(tier)
     yield {'__level__': 'depth3/rotating'}
     yield from level(3, 3, False)
     if tier == 'quick':
